@@ -7,6 +7,9 @@ import (
 	"strings"
 
 	"github.com/TimothyStiles/poly/transform/codon"
+
+	"verif/mc"
+	"verif/vrand"
 )
 
 // Helpers shared by the codon-table properties (C07, C08, C18). Tables are
@@ -190,4 +193,30 @@ func sameStrings(a, b []string) bool {
 	sort.Strings(x)
 	sort.Strings(y)
 	return strings.Join(x, ",") == strings.Join(y, ",")
+}
+
+// optimizeAllAnswers runs Optimize(protein, t) under every sequence of answers
+// of the (replaced) random source and returns the distinct results; panics and
+// errors are returned as strings prefixed with "panic:" / "error:".
+func optimizeAllAnswers(protein string, t codon.Table) (results map[string]int, draws int) {
+	results = map[string]int{}
+	vrand.Enabled = true
+	defer func() { vrand.Enabled = false }()
+	mc.Explore(mc.Options{DevBound: -1, PreemptBound: -1, MaxExecs: 100000}, func(c *mc.Ctx) bool {
+		d0 := vrand.Draws
+		var dna string
+		var err error
+		p := catch(func() { dna, err = codon.Optimize(protein, t) })
+		draws = vrand.Draws - d0
+		switch {
+		case p != "":
+			results["panic:"+p]++
+		case err != nil:
+			results["error:"+err.Error()]++
+		default:
+			results[dna]++
+		}
+		return true
+	})
+	return
 }
